@@ -386,6 +386,10 @@ def make_callback(rt, c, cb, slot_getter=None):
                     if isinstance(ev, dict) and "write" in ev:
                         rt.cbwrite(slot, c, machine, ev["write"])
                         continue
+                    if isinstance(ev, dict) and "listen" in ev:
+                        # a listener WITHOUT any callback attached in the middle of the transition: nothing changes
+                        machine.add_listener(type("EmptyListener", (), {})())
+                        continue
                     if isinstance(ev, dict):          # to another machine
                         tgt = rt.xtarget(slot, ev, False)
                         if tgt is None:
@@ -448,6 +452,9 @@ def make_callback(rt, c, cb, slot_getter=None):
                         break
                     if isinstance(ev, dict) and "write" in ev:
                         rt.cbwrite(slot, c, machine, ev["write"])
+                        continue
+                    if isinstance(ev, dict) and "listen" in ev:
+                        machine.add_listener(type("EmptyListener", (), {})())
                         continue
                     if isinstance(ev, dict):          # to another machine
                         tgt = rt.xtarget(slot, ev, True)
@@ -859,6 +866,9 @@ class Built:
                 methods["__len__"] = lambda self_: 0
             elif kind == "falsy_bool":
                 methods["__bool__"] = lambda self_: False
+        if prov != "model" and kind in ("falsy_len", "falsy_bool"):
+            # a listener that is falsy when it is attached (an empty journal / recorder, a container subclass)
+            methods["__len__" if kind == "falsy_len" else "__bool__"] = (lambda self_: 0) if kind == "falsy_len" else (lambda self_: False)
         if kind == "equal":
             # value-like objects (frozen dataclasses, named tuples, ORM rows): every provider object of the scenario
             # compares and hashes equal to every other one; what an object IS stays a matter of identity
